@@ -246,10 +246,13 @@ func (cs *ConnSet) CheckPairing(rule string) {
 		}
 		_, ar, _, _, _, ap := lc.App.Snapshot()
 		_, tr, _, _, _, tpk := lc.Tp.Snapshot()
-		if ar > 0 && ap != lc.Tp.TxKey {
+		// a key of 0 means "not told apart yet": the first bytes of streams of different targets may
+		// coincide (they are distinct only among the sockets of one target), so a reader that has seen
+		// one or two bytes may still hold several candidates. Only a settled identification is evidence.
+		if ar > 0 && ap != 0 && ap != lc.Tp.TxKey {
 			cs.R.Fail(rule, "connection %d: the application received the stream of another connection's target socket", lc.I)
 		}
-		if tr > 0 && tpk != lc.App.TxKey {
+		if tr > 0 && tpk != 0 && tpk != lc.App.TxKey {
 			cs.R.Fail(rule, "connection %d: the target received another application's stream", lc.I)
 		}
 	}
